@@ -215,6 +215,8 @@ def run_scenario(scn, workdir, scheme='structural', name_tables=False, plan=None
     extended output or None), traces, dir."""
     d = pathlib.Path(tempfile.mkdtemp(prefix='run_', dir=workdir))
     conf = materialise(scn, d, scheme, name_tables)
+    if damage == 'missing_csv_dir':
+        conf['csv_result_path'] = str(d / 'out' / 'run_07' / 'tables' / 'res.csv')
     if damage == 'missing_query':
         os.unlink(conf['query_path'])
     elif damage == 'corrupt_query':
